@@ -15,7 +15,7 @@ BOUNDS = "all control-flow paths of the encoded functions (acyclic justification
 ASSUMPTIONS = ["a tokio JoinSet yields each spawned task's result exactly once and None only when empty",
                "`?` on a Result is Try::branch + FromResidual::from_residual as rustc's MIR shows",
                "the Client implementation reports a failed store call as Err"]
-OUTSIDE = ["a general fault-injected run of the session (the native replay injects xorb-put faults through the local store's file system only)", "completion orders of background tasks (covered only in that no path ignores a failed call)"]
+OUTSIDE = ["a general fault-injected run of the session (the native replays inject single xorb-put / shard-upload faults through the local store's file system; they only confirm counterexamples)", "completion orders of background tasks (covered only in that no path ignores a failed call)"]
 
 TRY = r"as Try>::branch$"
 RESID = r"FromResidual<.*>>::from_residual$"
